@@ -232,7 +232,63 @@ def r02_6(ctx):
     return rr
 
 
-RULES = [r02_1, r02_2, r02_3, r02_4, r02_5, r02_6]
+USER_FN_OPERANDS = {"func", "chunk", "aggregate", "combine", "binop", "function", "preprocess", "cumfunc"}
+R027_EXEMPT = {
+    "Reduction": "only the weights operand is indexed, with the same index as the reduced array's kept axes; the chunk function itself receives whole blocks of the (sliced) input along non-reduced axes through the ordinary tree reduction, and the culling gate declines slices that do not drop a whole block",
+}
+
+
+def r02_7(ctx):
+    rr = RuleResult("R02.7", "GUARD", "a slice is pushed INTO the inputs of a node that runs a user-supplied block function only in whole blocks (the function is block-local, not known to be pointwise within a block)", min_instances=2)
+    repo = ctx.repo
+    from ..dataflow import Defs
+    from ..namedeps import params_of
+
+    for c in repo.expr_classes():
+        f = c.methods.get("_accept_slice")
+        if f is None:
+            continue
+        ops = sorted(set(params_of(repo, c)) & USER_FN_OPERANDS)
+        if not ops:
+            continue
+        defs = Defs(f.node)
+        slice_param = [p for p in f.params if p != "self"][0] if len(f.params) > 1 else "slice_expr"
+
+        def element_level(expr, depth=0, seen=None):
+            """Does ``expr`` derive from the element positions of the pushed slice (slice_expr.index) without going
+            through block boundaries (cached_cumsum / chunk sums)?"""
+            seen = seen if seen is not None else set()
+            txt = unparse(expr)
+            if "cumsum" in txt or "block_range" in txt:
+                return False
+            for n in ast.walk(expr):
+                if isinstance(n, ast.Attribute) and n.attr == "index" and isinstance(n.value, ast.Name) and n.value.id == slice_param:
+                    return True
+                if isinstance(n, ast.Name) and n.id not in seen and n.id in defs.defs and depth < 5:
+                    seen.add(n.id)
+                    if any(element_level(v, depth + 1, seen) for v in defs.defs[n.id] + defs.mutations(n.id)):
+                        return True
+            return False
+
+        sites = [n for n in ast.walk(f.node) if isinstance(n, ast.Subscript) and isinstance(n.ctx, ast.Load) and isinstance(n.value, ast.Call) and (dotted(n.value.func) or "").endswith("new_collection")]
+        hits = [n for n in sites if element_level(n.slice)]
+        cst = f"{c.construct}::_accept_slice::element-level input slice"
+        rr.inst(cst, user_function_operands=ops, input_slicing_sites=[unparse(n)[:60] for n in sites], element_level=[unparse(n)[:60] for n in hits])
+        if not hits:
+            continue
+        if c.name in R027_EXEMPT:
+            rr.exempt(cst, R027_EXEMPT[c.name])
+            continue
+        ctx.finding(
+            rr, cst,
+            f"{c.name}._accept_slice pushes the element positions of a slice into the inputs of a node whose block function ({', '.join(ops)}) is supplied by the user: the rewrite assumes the function "
+            f"is pointwise within a block; a block-local but non-pointwise function (per-block cumsum, normalisation, FFT) then sees other data and the sliced result differs from slicing the full result",
+            func=f, node=hits[0],
+        )
+    return rr
+
+
+RULES = [r02_1, r02_2, r02_3, r02_4, r02_5, r02_6, r02_7]
 
 LEVEL_TEXT = (
     "Static decision of sentence 3 of C02 (fusion preserves the output-block -> input-block mapping) as sibling agreement "
